@@ -12,7 +12,8 @@ ASBUILT_FILE = os.path.join(core.VERIF, "spec", "asbuilt_c1.json")
 def asbuilt():
     """Variant constants describing the current tree (justified by trace validation: the New event must show
     keep_size_before = KeepBefore, renormalisation samples must satisfy Norm)."""
-    d = {"PassExtra": "FALSE", "NormKind": "sat", "MoveKeepsPending": "FALSE", "PendingAssertStrict": "TRUE"}
+    d = {"PassExtra": "FALSE", "NormKind": "sat", "MoveKeepsPending": "FALSE", "PendingAssertStrict": "TRUE", "MaskAfterPending": "TRUE",
+         "KeepAfterUsesNice": "FALSE"}
     if os.path.exists(ASBUILT_FILE):
         d.update(json.load(open(ASBUILT_FILE)))
     return d
@@ -20,17 +21,19 @@ def asbuilt():
 
 # --------------------------------------------------------------------------- EncWindow: scaled model configurations
 ENC_INV = ["TypeOK", "IndicesInRange", "HistoryRetained", "ExtendInRange", "AllBytesAccounted", "NoStuck",
-           "CopyInRange", "MatchSourceInRange", "LookAheadGate", "MoveInRange", "NoEmptyChunk", "PendingAssertHolds"]
+           "CopyInRange", "MatchSourceInRange", "LookAheadGate", "MoveInRange", "NoEmptyChunk", "PendingAssertHolds",
+           "PosStateAligned"]
 
 
 def variants(pass_extra=None):
     ab = asbuilt()
     return dict(PassExtra=pass_extra or ab["PassExtra"], MoveKeepsPending=ab["MoveKeepsPending"],
-                PendingAssertStrict=ab["PendingAssertStrict"])
+                PendingAssertStrict=ab["PendingAssertStrict"], MaskAfterPending=ab["MaskAfterPending"],
+                KeepAfterUsesNice=ab["KeepAfterUsesNice"])
 
 
 def scaled(**kw):
-    c = dict(Dict=2, ModeBefore=1, ExtraAfter=2, MatchMax=3, Reserve=2, Align=1, RawMax=8, CLimit=5, RawCap=6, ULimit=9,
+    c = dict(Dict=2, ModeBefore=1, ExtraAfter=2, MatchMax=3, NiceLen=2, Reserve=2, Align=1, PosAlign=1, RawMax=8, CLimit=5, RawCap=6, ULimit=9,
              ReqFlush=2, ReqFinish=2, SkipLooksBack="FALSE", MaxLook=2, MaxRA=0, Writer='"lzma2"',
              ChunkSize=0, PresetLen=0, N=30, MaxWrite=4, TraceMode="FALSE")
     c.update(variants())
@@ -45,7 +48,7 @@ BT4 = dict(ReqFlush=3, SkipLooksBack="TRUE")
 SCALED_CFGS = {
     "fast-hc4-smalldict": (dict(), dict(mode="fast", mf="hc4", dict=4096)),
     "fast-bt4-smalldict": (dict(**BT4), dict(mode="fast", mf="bt4", dict=4096, nice=64)),
-    "fast-hc4-bigdict": (dict(Dict=8), dict(mode="fast", mf="hc4", dict=65536)),
+    "fast-hc4-bigdict": (dict(Dict=8, Align=2, PosAlign=2, Reserve=4), dict(mode="fast", mf="hc4", dict=65536)),
     "fast-bt4-bigdict": (dict(Dict=8, **BT4), dict(mode="fast", mf="bt4", dict=65536, nice=273)),
     "normal-bt4-smalldict": (dict(RawCap=4, N=26, **NORMAL, **BT4), dict(mode="normal", mf="bt4", dict=4096)),
     "normal-hc4-bigdict": (dict(Dict=8, RawCap=4, N=26, **NORMAL), dict(mode="normal", mf="hc4", dict=65536)),
@@ -66,8 +69,8 @@ def real_consts(opt, writer="lzma2", chunk_size=None, preset_len=0, pass_extra=N
     fast = opt.get("mode", "fast") != "normal"
     bt4 = opt.get("mf", "hc4") == "bt4"
     d = int(opt.get("dict", 65536))
-    c = dict(Dict=d, ModeBefore=1 if fast else 4096, ExtraAfter=272 if fast else 4096, MatchMax=273,
-             Reserve=min(d // 2 + (256 << 10), 512 << 20), Align=64, RawMax=65536, CLimit=65510, RawCap=65536,
+    c = dict(Dict=d, ModeBefore=1 if fast else 4096, ExtraAfter=272 if fast else 4096, MatchMax=273, NiceLen=int(opt.get("nice", 32)),
+             Reserve=min(d // 2 + (256 << 10), 512 << 20), Align=64, PosAlign=16, RawMax=65536, CLimit=65510, RawCap=65536,
              ULimit=(2 << 20) - 273, ReqFlush=int(opt.get("nice", 32)) if bt4 else 4, ReqFinish=4,
              SkipLooksBack="TRUE" if bt4 else "FALSE", MaxLook=272 if fast else 4096, MaxRA=0 if fast else 4095,
              Writer='"%s"' % writer,
@@ -85,7 +88,7 @@ def job_consts(job):
 WIN_EVENTS = {"A", "New", "Preset", "Fill", "Flush", "Finish", "Enc", "Sym", "Chunk"}
 NORM_EVENTS = {"Renorm", "NormTab", "NormSmp"}
 TRACE_INV = ["Track", "IndicesInRange", "HistoryRetained", "AllBytesAccounted", "CopyInRange", "MatchSourceInRange",
-             "LookAheadGate", "MoveInRange", "NoEmptyChunk", "PendingAssertHolds"]
+             "LookAheadGate", "MoveInRange", "NoEmptyChunk", "PendingAssertHolds", "PosStateAligned"]
 
 
 def validate_window_traces(items, timeout=900, pool=None):
